@@ -221,6 +221,11 @@ def axiom_audit(import_mods, theorem_names):
     return ok, res, out
 
 
+# drivers whose import closure is searched for stale generated modules in addition to the theorem module's
+# (the engines import the same Model files as the theorem modules, so normally nothing is needed here)
+DRIVER_ROOTS = {}
+
+
 def closure_files(root_rel):
     """Transitive closure of `import LaytheVerif.*` from a root module path (relative to LEAN)."""
     seen, todo = [], [root_rel]
@@ -383,9 +388,24 @@ class Ctx:
         self.cov["theorems"] = thms
         self.cov["checker_cmd"] = "python3 tools/translate.py /repo lean/LaytheVerif/Gen && cd lean && lake build %s && lake env lean <#print axioms audit>" % prop_module
         if not ok_t:
-            self.cov["discharged"] = 0
-            self.broken = ("translator", out_t[-2000:])
-            return False
+            # a generator that no longer understands the source leaves its old output in place: that only
+            # matters to properties whose theorem modules (or drivers) import it
+            relevant = None
+            try:
+                st = json.load(open(os.path.join(LEAN, "LaytheVerif", "Gen", ".translate_status.json")))
+                gen_used = {os.path.basename(f)[:-5] for f in files if "/Gen/" in f.replace(os.sep, "/")}
+                for t in extra_targets:
+                    for root in DRIVER_ROOTS.get(t, []):
+                        gen_used |= {os.path.basename(f)[:-5] for f in closure_files(root) if "/Gen/" in f.replace(os.sep, "/")}
+                relevant = [x for x in st.get("failed", []) if set(x["outputs"]) & gen_used]
+            except (OSError, ValueError, KeyError):
+                relevant = None
+            if relevant is None or relevant:
+                self.cov["discharged"] = 0
+                msg = out_t[-2000:] if relevant is None else "\n".join("%s (%s): %s" % (x["generator"], ", ".join("Gen/%s.lean" % o for o in x["outputs"]), x["error"]) for x in relevant)
+                self.broken = ("translator", msg)
+                return False
+            self.cov["translator_failures_outside_this_property"] = [x["generator"] for x in st.get("failed", [])]
         bad = scan_forbidden(files)
         ok_b, out_b = lake_build([prop_module] + list(extra_targets))
         if not ok_b or bad:
